@@ -105,7 +105,7 @@ class ProgGen:
         if self.chance(self.wild):
             typ = r.choice(["int", "float", "bool", "str", "arr", "nil", "fun"])
         if typ == "nil":
-            return self.fresh(["zz", "qq", "undef", "nope"], self.glob)
+            return self.fresh(["undefd", "nosuch", "nilone", "niltwo"], self.glob)
         if typ == "fun":
             fs = [f for f in self.funcs]
             return r.choice(fs) if fs else "toa"
